@@ -81,12 +81,13 @@ def module_consts(path):
                 pass
             except Exception:
                 pass
-    # local constants of rabin_fingerprint (the polynomial)
-    for st in tree.body:
-        if isinstance(st, ast.FunctionDef) and st.name == "rabin_fingerprint":
-            for s2 in st.body:
-                if isinstance(s2, ast.Assign) and isinstance(s2.targets[0], ast.Name) and isinstance(s2.value, ast.Constant):
-                    env["rabin." + s2.targets[0].id] = s2.value.value
+    # the Rabin polynomial: the integer constant assigned to a name containing "empty", wherever it
+    # lives (function local today; a refactor may hoist it to module level)
+    for node in ast.walk(tree):
+        if (isinstance(node, ast.Assign) and len(node.targets) == 1 and isinstance(node.targets[0], ast.Name)
+                and isinstance(node.value, ast.Constant) and isinstance(node.value.value, int)
+                and "empty" in node.targets[0].id.lower()):
+            env["rabin.empty_64"] = node.value.value
     return env, names
 
 
